@@ -1,5 +1,6 @@
 import DoviModel.Model.Av1
 import DoviModel.Proofs.Bits
+import DoviModel.Proofs.NoPanic
 /-! # C08 — parsing untrusted bytes always returns (model theorems; extended in Proofs/NoPanic.lean) -/
 namespace Dovi.C08
 open Dovi
@@ -19,5 +20,33 @@ theorem parseRpu_short_is_error (data : Bytes) (h : data.length - trailingZeroes
 /-- a buffer below the 25-byte minimum is an error at every prefix-trimming entry point -/
 theorem trimPrefix_short (data : Bytes) (h : data.length < 25) : trimPrefix data = .error := by
   simp [trimPrefix, h]
+
+/-- **no panic outside the two third-party exp-Golomb sites.** `Good` = the syntax bits contain no run of 63
+zero bits; both third-party panics (`get_ue` with 64 leading zeros, `get_se` at `i64::MIN`) need such a run.
+On every other input the model of `DoviRpu::parse` returns a value or an error. -/
+theorem parse_no_panic (data : Bytes)
+    (hg : Good (bytesToBits (data.take (data.length - trailingZeroes data)))) : parseRpu data ≠ .panic :=
+  parseRpu_no_panic data hg
+
+/-- the raw entry point (`parse_rpu`): prefix trimming cannot panic either -/
+theorem parse_entry_no_panic (data t : Bytes) (ht : trimPrefix data = .ok t)
+    (hg : Good (bytesToBits (t.take (t.length - trailingZeroes t)))) : parseRpuEntry data ≠ .panic := by
+  simp [parseRpuEntry, ht, Res.bind]
+  exact parseRpu_no_panic t hg
+
+theorem trimPrefix_no_panic (data : Bytes) : trimPrefix data ≠ .panic := by
+  unfold trimPrefix
+  split
+  · simp
+  · split <;> simp
+
+/-- the hypothesis is not vacuous the other way round: with 64 leading zeros the model does panic — the
+replayable witness of known finding KF-C08-ue64 (corpus/C08/ue64_witness.case) -/
+theorem ue64_witness_panics :
+    parseRpu [25, 8, 9, 8, 64, 0, 0, 0, 0, 0, 0, 0, 4, 0, 0, 0, 0, 0, 0, 0, 0, 142, 70, 139, 135, 128] = .panic := by
+  decide +kernel
+
+/-- … and a well-formed sample header is `Good` -/
+example : Good (bytesToBits [25, 8, 9, 8, 64, 97, 54, 80]) := by decide
 
 end Dovi.C08
